@@ -151,9 +151,17 @@ where
         // and memory that run left behind is still there; initialisation has to reset them
         state.insert(Evaluations(137));
         state.insert(Iterations(11));
-        let warm = guarded(|| config.run(problem, &mut state));
+        // ... which was about the same or about another instance of the same size
+        let other = if case.seed & 1 == 1 { Some(problem.sibling()) } else { None };
+        if let Some(o) = &other {
+            o.instr().yield_in_objective.store(par, Ordering::Relaxed);
+        }
+        let warm = guarded(|| config.run(other.as_ref().unwrap_or(problem), &mut state));
         if let Ok(Ok(())) = warm {
             bump(&mut data.lock().unwrap().counters, "fault:stale-state-from-an-earlier-run", 1);
+            if other.is_some() {
+                bump(&mut data.lock().unwrap().counters, "fault:stale-state-from-a-run-on-another-instance", 1);
+            }
         }
         // the caller starts the next run from an empty population stack and a fresh generator
         if let Ok(mut pops) = state.try_borrow_mut::<Populations<P>>() {
